@@ -206,6 +206,24 @@ class Normalise(ast.NodeTransformer):
         n.ifs = [_test(t) for t in n.ifs]
         return n
 
+    def visit_Call(self, n):
+        # N14: list(chain.from_iterable(X)) / list(chain(*X))  ->  [x for sub in X for x in sub]   (one spelling of "flatten one level")
+        self.generic_visit(n)
+        if isinstance(n.func, ast.Name) and n.func.id == "list" and len(n.args) == 1 and not n.keywords and isinstance(n.args[0], ast.Call) and not n.args[0].keywords:
+            inner = n.args[0]
+            fn_ = ast.unparse(inner.func)
+            src = None
+            if fn_ in ("chain.from_iterable", "itertools.chain.from_iterable") and len(inner.args) == 1 and not isinstance(inner.args[0], ast.Starred):
+                src = inner.args[0]
+            elif fn_ in ("chain", "itertools.chain") and len(inner.args) == 1 and isinstance(inner.args[0], ast.Starred):
+                src = inner.args[0].value
+            if src is not None and not isinstance(src, (ast.GeneratorExp,)):
+                comp = ast.ListComp(elt=ast.Name(id="_flat_x", ctx=ast.Load()), generators=[
+                    ast.comprehension(target=ast.Name(id="_flat_sub", ctx=ast.Store()), iter=src, ifs=[], is_async=0),
+                    ast.comprehension(target=ast.Name(id="_flat_x", ctx=ast.Store()), iter=ast.Name(id="_flat_sub", ctx=ast.Load()), ifs=[], is_async=0)])
+                return ast.fix_missing_locations(ast.copy_location(comp, n))
+        return n
+
     def visit_Compare(self, n):
         self.generic_visit(n)
         if len(n.ops) == 1 and type(n.ops[0]) in _MIRROR:
@@ -533,8 +551,155 @@ def _param_defaults(tree):
     return tree
 
 
+class _ConstGetattr(ast.NodeTransformer):
+    """N16: getattr(x, 'name') with a literal name and no default is x.name"""
+    def visit_Call(self, n):
+        self.generic_visit(n)
+        if isinstance(n.func, ast.Name) and n.func.id == "getattr" and len(n.args) == 2 and not n.keywords and isinstance(n.args[1], ast.Constant) \
+                and isinstance(n.args[1].value, str) and n.args[1].value.isidentifier():
+            return ast.copy_location(ast.Attribute(value=n.args[0], attr=n.args[1].value, ctx=ast.Load()), n)
+        return n
+
+
+def _literal_rows(e, consts):
+    """rows of a literal table: a tuple/list of constants or of equally long tuples of constants (possibly behind a module-level name / reversed())"""
+    rev = False
+    if isinstance(e, ast.Call) and isinstance(e.func, ast.Name) and e.func.id == "reversed" and len(e.args) == 1 and not e.keywords:
+        e, rev = e.args[0], True
+    if isinstance(e, ast.Name) and e.id in consts:
+        e = consts[e.id]
+    if not isinstance(e, (ast.Tuple, ast.List)) or not (1 <= len(e.elts) <= 4):
+        return None
+    rows = []
+    for r in e.elts:
+        if isinstance(r, ast.Constant):
+            rows.append([r])
+        elif isinstance(r, (ast.Tuple, ast.List)) and r.elts and all(isinstance(c, ast.Constant) for c in r.elts):
+            rows.append(list(r.elts))
+        else:
+            return None
+    if len({len(r) for r in rows}) != 1:
+        return None
+    return list(reversed(rows)) if rev else rows
+
+
+def _unroll_table_loops(tree):
+    """N15: a `for` over a small literal table of constants (written in place, or a module-level name bound once to such a literal) is its body
+    repeated once per row with the row's constants substituted - only when the body has no break/continue of that loop and does not re-bind the
+    loop variables.  Inside each copy a local that merely names an attribute (`idx = self.some_index`) is replaced by that attribute, and
+    locals assigned in the body get a per-copy suffix."""
+    consts = {}
+    stores = {}
+    for st in getattr(tree, "body", []):
+        tg = st.targets[0] if isinstance(st, ast.Assign) and len(st.targets) == 1 else (st.target if isinstance(st, ast.AnnAssign) and st.value is not None else None)
+        if isinstance(tg, ast.Name):
+            stores[tg.id] = stores.get(tg.id, 0) + 1
+            consts[tg.id] = st.value
+    consts = {k: v for k, v in consts.items() if stores.get(k) == 1 and isinstance(v, (ast.Tuple, ast.List))}
+
+    def loop_jumps(body):
+        out = []
+
+        def walk(stmts):
+            for s_ in stmts:
+                if isinstance(s_, (ast.Break, ast.Continue)):
+                    out.append(s_)
+                elif isinstance(s_, (ast.For, ast.While, ast.AsyncFor)):
+                    walk(s_.orelse)
+                elif isinstance(s_, (ast.FunctionDef, ast.AsyncFunctionDef, ast.ClassDef)):
+                    continue
+                else:
+                    for f in ("body", "orelse", "finalbody"):
+                        walk(getattr(s_, f, None) or [])
+                    for h in getattr(s_, "handlers", None) or []:
+                        walk(h.body)
+        walk(body)
+        return out
+
+    def unroll(st, fn_locals_after):
+        rows = _literal_rows(st.iter, consts)
+        if rows is None or st.orelse or loop_jumps(st.body):
+            return None
+        tgs = st.target.elts if isinstance(st.target, (ast.Tuple, ast.List)) else [st.target]
+        if not all(isinstance(t, ast.Name) for t in tgs) or len(tgs) != len(rows[0]):
+            return None
+        tnames = [t.id for t in tgs]
+        assigned = _stored_names(st.body)
+        if set(tnames) & assigned or set(tnames) & fn_locals_after:
+            return None
+        out = []
+        for k, row in enumerate(rows, 1):
+            body = copy.deepcopy(st.body)
+            for nm, c in zip(tnames, row):
+                body = [_SubstName(nm, c).visit(b) for b in body]
+            body = [_ConstGetattr().visit(b) for b in body]
+            # per-copy names for locals that are only used inside the loop
+            for nm in sorted(assigned - fn_locals_after):
+                new = f"{nm}__{k}"
+                for b in body:
+                    for x in ast.walk(b):
+                        if isinstance(x, ast.Name) and x.id == nm:
+                            x.id = new
+            # a local that merely names an attribute chain is that attribute
+            changed = True
+            while changed:
+                changed = False
+                for i, b in enumerate(body):
+                    if isinstance(b, ast.Assign) and len(b.targets) == 1 and isinstance(b.targets[0], ast.Name) and isinstance(b.value, ast.Attribute):
+                        chain_ok, v = True, b.value
+                        while isinstance(v, ast.Attribute):
+                            v = v.value
+                        chain_ok = isinstance(v, ast.Name)
+                        nm = b.targets[0].id
+                        rest = body[:i] + body[i + 1:]
+                        if chain_ok and nm not in _stored_names(rest) and v.id not in _stored_names(rest) and nm not in fn_locals_after:
+                            body = [_SubstName(nm, b.value).visit(r_) for r_ in rest]
+                            changed = True
+                            break
+            out.extend(body)
+        return out
+
+    for fn in ast.walk(tree):
+        if not isinstance(fn, (ast.FunctionDef, ast.AsyncFunctionDef)):
+            continue
+        changed_any = True
+        rounds = 0
+        while changed_any and rounds < 3:
+            changed_any = False
+            rounds += 1
+            for holder in ast.walk(fn):
+                for f in ("body", "orelse", "finalbody"):
+                    lst = getattr(holder, f, None)
+                    if not (isinstance(lst, list) and lst and isinstance(lst[0], ast.stmt)):
+                        continue
+                    new = []
+                    for i, st in enumerate(lst):
+                        rep_ = None
+                        if isinstance(st, ast.For):
+                            # names that also occur outside this loop must keep their meaning: count occurrences inside vs in the whole function
+                            cnt_all, cnt_in = {}, {}
+                            for x in ast.walk(fn):
+                                if isinstance(x, ast.Name):
+                                    cnt_all[x.id] = cnt_all.get(x.id, 0) + 1
+                            for x in ast.walk(st):
+                                if isinstance(x, ast.Name):
+                                    cnt_in[x.id] = cnt_in.get(x.id, 0) + 1
+                            after = {nm for nm in cnt_in if cnt_all.get(nm, 0) > cnt_in[nm]}
+                            rep_ = unroll(st, after & (_stored_names(st.body) | {t.id for t in ast.walk(st.target) if isinstance(t, ast.Name)}))
+                        if rep_ is not None:
+                            new.extend(rep_)
+                            changed_any = True
+                        else:
+                            new.append(st)
+                    setattr(holder, f, new)
+    tree = _ConstGetattr().visit(tree)
+    ast.fix_missing_locations(tree)
+    return tree
+
+
 def normalise(tree: ast.AST) -> ast.AST:
     tree = Normalise().visit(tree)
+    tree = _unroll_table_loops(tree)
     tree = _param_defaults(tree)
     tree = _search_loops(tree)
     tree = _loops_over_generators(tree)
